@@ -67,7 +67,7 @@ def run_cases(prop, cases):
         ta, tb = [], []
         nlines = len(c["lines"])
         for ln in range(1, nlines + 1):
-            a, b = diff.compare(impl.get((c["id"], ln)), model.get((c["id"], ln)))
+            a, b = diff.compare(impl.get((c["id"], ln)), model.get((c["id"], ln)), c["lines"][ln - 1])
             if a: ta.append((ln, a))
             if b: tb.append((ln, b))
         results.append((c, ta, tb))
